@@ -2,7 +2,7 @@
    (definitions only).  A trace is the initial tableau and, per step, the operation and what the
    implementation produced; the model is applied to the implementation's previous tableau, so a
    disagreement is localised to one step. *)
-From Coq Require Import List Bool ZArith Arith.
+From Coq Require Import List Bool ZArith Arith Uint63.
 From VF Require Import Cliff.Tableau.
 Import ListNotations.
 
@@ -10,6 +10,7 @@ Inductive step :=
 | SG (g : cgate) (after : option tableau)                      (* an apply_* call / act_on of a primitive gate *)
 | SM (q : nat) (bit : bool) (after : tableau) (outcome random : bool)     (* _measure, advancing *)
 | SMalt (q : nat) (bit : bool) (after : tableau) (outcome random : bool)  (* the other branch, not advancing *)
+| SMsame (q : nat) (outcome : bool)      (* _measure drew no random bit and left the tableau as it was *)
 | SThen (second after : tableau)                               (* self.then(second) *)
 | SInv (after : tableau)                                       (* self.inverse(), not advancing *)
 | SValid (v : bool)                                            (* _validate() *)
@@ -28,6 +29,7 @@ Fixpoint run_steps (n : nat) (cur : tableau) (steps : list step) (k : nat) : opt
       then run_steps n (match after with Some t => t | None => cur end) r (S k) else Some k
   | SM q bit after o rd :: r => if measure_ok n q bit cur after o rd then run_steps n after r (S k) else Some k
   | SMalt q bit after o rd :: r => if measure_ok n q bit cur after o rd then run_steps n cur r (S k) else Some k
+  | SMsame q o :: r => if measure_ok n q false cur cur o false then run_steps n cur r (S k) else Some k
   | SThen second after :: r => if tab_eqb (tab_then n cur second) after then run_steps n after r (S k) else Some k
   | SInv after :: r => if tab_eqb (tab_inverse n cur) after then run_steps n cur r (S k) else Some k
   | SValid v :: r => if Bool.eqb (tab_validate n cur) v then run_steps n cur r (S k) else Some k
@@ -50,3 +52,11 @@ Fixpoint bad_traces (ts : list trace) (i : nat) : list (nat * nat) :=
 Definition pb (d : nat) : pbit :=
   match d with 0 => (false, false) | 1 => (false, true) | 2 => (true, false) | _ => (true, true) end.
 Definition R (l : list nat) (s : bool) : prow := mkRow (map pb l) s.
+
+(* packed literals: bit k of the tableau (row-major; per row the pairs (z_j, x_j) for j < n, then the sign) is bit k mod 60
+   of the k/60-th primitive integer.  One literal per 60 bits keeps the generated cases files cheap to elaborate. *)
+Definition tbit (cs : list int) (k : nat) : bool :=
+  Uint63.bit (nth (k / 60) cs 0%uint63) (Uint63.of_Z (Z.of_nat (k mod 60))).
+Definition TI (n : nat) (cs : list int) : tableau :=
+  map (fun i => mkRow (map (fun j => (tbit cs (i * (2 * n + 1) + 2 * j + 1), tbit cs (i * (2 * n + 1) + 2 * j))) (seq 0 n))
+                      (tbit cs (i * (2 * n + 1) + 2 * n))) (seq 0 (2 * n)).
